@@ -165,9 +165,69 @@ fn long_history(rep: &mut Report, seed: u64, n_syncs: u32) {
     }
 }
 
+/// A port that has been up for a long time: more than 65536 messages of each kind it originates
+/// (every internal counter wraps at least once).
+fn many_events(rep: &mut Report, seed: u64) {
+    use crate::drive::{make_slave, Build, Remote};
+    use statime::observability::port::PortState;
+    let replay = json!({"many_events_seed": seed});
+    let role = seed % 3; // 0 master (E2E), 1 slave (E2E), 2 P2P port
+    let mut b = Build::new(6);
+    b.p2p = role == 2;
+    b.seed = seed;
+    let Ok(built) = b.build() else { return };
+    let mut node = built.node;
+    let clock = node.clock.clone();
+    let mut t: u128 = 1_700_000_000 * SEC;
+    if role == 1 {
+        let mut parent = Remote::new(9, 1);
+        if make_slave(&mut node, 0, &mut parent).is_err() || node.port_state(0) != PortState::Slave {
+            return;
+        }
+    } else if node.call(0, Call::AnnounceReceiptTimer).is_err() {
+        return;
+    }
+    let n = 66_000u32 + (seed % 1000) as u32;
+    let calls: &[u8] = match role {
+        0 => &[0, 1],
+        1 => &[2],
+        _ => &[2, 0, 1],
+    };
+    for k in 0..n {
+        t += 125_000_000u128 << 32;
+        clock.lock().unwrap().set_true(t);
+        for c in calls {
+            rep.ev("host_call");
+            let c = match c {
+                0 => Call::SyncTimer,
+                1 => Call::AnnounceTimer,
+                _ => Call::DelayRequestTimer,
+            };
+            let what = c.kind();
+            let acts = match node.call(0, c) {
+                Ok(a) => a,
+                Err(p) => {
+                    rep.violation(&format!("C03|panic|{}|{}", p.site(), p.class()), &format!("{what} number {k} of a long-running port panicked: {}", p.describe()), replay);
+                    return;
+                }
+            };
+            for a in acts {
+                if let Act::SendEvent { ctx: Some(ctx), .. } = a {
+                    rep.ev("host_call");
+                    if let Err(p) = node.call(0, Call::TxTimestamp(ctx, time_from_units(t))) {
+                        rep.violation(&format!("C03|panic|{}|{}", p.site(), p.class()), &format!("transmit timestamp number {k} of a long-running port panicked: {}", p.describe()), replay);
+                        return;
+                    }
+                }
+            }
+        }
+    }
+    rep.ev("port_driven_through_more_than_65536_messages_of_a_kind");
+}
+
 pub fn run(rep: &mut Report, tier: &str, seed: u64, shard: (u32, u32), replay: Option<&str>) {
     rep.rule = "random instance configurations (1-3 ports, E2E/P2P, path trace, slave-only, master-only, acceptable master lists, Kalman/Basic/recording filter, real or scripted TLV forwarder, failing clocks, clock near 0 / 2^48 s / 2^62 ns) driven into protocol states and then through adaptive hostile host calls (reference-codec frames with boundary-lattice fields from the parent / other masters / own identity, TLVs sized around every margin, PATH_TRACE 0..240 entries, truncations, bit flips, random bytes <= 2048, timers, transmit timestamps, BMCA, run-time setting changes) in a consistent and an adversarial timestamp regime; distinct = (port state x call kind x message type) cells hit; every host call counted".into();
-    rep.require(&["host_call", "state_Listening", "state_Master", "state_Slave", "state_Passive", "state_Faulty"]);
+    rep.require(&["host_call", "state_Listening", "state_Master", "state_Slave", "state_Passive", "state_Faulty", "port_driven_through_more_than_65536_messages_of_a_kind"]);
     if let Some(path) = replay {
         let v: serde_json::Value = serde_json::from_str(&std::fs::read_to_string(path).unwrap()).unwrap();
         match serde_json::from_value::<Case>(v["case"].clone()) {
@@ -191,6 +251,9 @@ pub fn run(rep: &mut Report, tier: &str, seed: u64, shard: (u32, u32), replay: O
         rep.evaluations += 1;
         if tier != "miri" && i % 25 == 0 {
             long_history(rep, rng.gen(), 400);
+        }
+        if tier != "miri" && i % 400 == 7 {
+            many_events(rep, seed.wrapping_add(i));
         }
     }
 }
